@@ -15,11 +15,22 @@ Theorem C08_pattern_correct :
 Proof. exact pattern_correct. Qed.
 Print Assumptions C08_pattern_correct.
 
-(* ... and the emitted node is one compile() accepts whenever the Hy pattern is well formed *)
+(* ... and a pattern compile_pattern accepts ([accepted]: no `p :as _`, no or-pattern with fewer than two
+   alternatives, no value pattern without an attribute -- its three syntax errors) compiles to a node that
+   compile() accepts, given what compile_pattern leaves unchecked ([hwf]: at most one star per sequence, names
+   that do not mangle to "_") *)
 Theorem C08_compile_valid : forall (mangle : string -> string) h b,
-  hwf mangle b h = true -> valid b (compile mangle h) = true.
+  accepted h = true -> hwf mangle b h = true -> valid b (compile mangle h) = true.
 Proof. exact compile_valid_all. Qed.
 Print Assumptions C08_compile_valid.
+
+(* conversely the three syntax errors lose nothing: a pattern compile_pattern rejects would have compiled to
+   a node compile() rejects (commits 61b21a1, d2a83e6, 8cfcf87 turned those ValueError/SyntaxError of compile()
+   into HySyntaxError) *)
+Theorem C08_rejected_would_be_invalid : forall (mangle : string -> string) h b, mangle as_forbidden_name = "_" ->
+  accepted h = false -> valid b (compile mangle h) = false.
+Proof. exact rejected_would_be_invalid_all. Qed.
+Print Assumptions C08_rejected_would_be_invalid.
 
 (* the three constructs that were miscompiled before commits 7ce654c, 05b9a7b, 24b6ab7 *)
 Example C08_example_string_literal :
@@ -57,9 +68,17 @@ Print Assumptions C08_match_none.
 
 (* non-trivial objects meeting the hypotheses *)
 Example C08_example_wellformed :
-  hwf t_mangle false (HAs (HSeq [HSym "x"; HStar "r"; HMap [LStr "k"] [HOr [HLit (LInt 1); HSym "None"]] (Some "m");
-                                    HClass ["C"] [HSym "y"] ["q"] [HKeyword "a-b"]]) "w") = true.
-Proof. vm_compute. reflexivity. Qed.
+  let h := (HAs (HSeq [HSym "x"; HStar "r"; HMap [LStr "k"] [HOr [HLit (LInt 1); HSym "None"]] (Some "m");
+                                    HClass ["C"] [HSym "y"] ["q"] [HKeyword "a-b"]; HValue ["m"; "K"]]) "w") in
+  accepted h = true /\ hwf t_mangle false h = true.
+Proof. vm_compute. split; reflexivity. Qed.
+Example C08_example_rejected :
+  compile_checked t_mangle (HSeq [HOr [HLit (LInt 1)]]) = None
+  /\ compile_checked t_mangle (HValue ["y"]) = None
+  /\ compile_checked t_mangle (HAs (HLit (LInt 1)) "_") = None
+  /\ compile_checked t_mangle (HOr [HLit (LInt 1); HValue ["m"; "K"]])
+     = Some (PMatchOr [PMatchValue (VEConst (LInt 1)); PMatchValue (VEDotted ["m"; "K"])]).
+Proof. vm_compute. repeat split; reflexivity. Qed.
 Example C08_example_lifted_guards :
   compile_match t_mangle [ {| hc_pat := HSym "x"; hc_guard := Some {| g_id := 7; g_stmts := true |}; hc_body := 0 |};
                            {| hc_pat := HSym "_"; hc_guard := None; hc_body := 1 |} ] 0
